@@ -666,6 +666,14 @@ fn enumerate(args: &Args) -> Vec<SpCase> {
                 }
             }
         }
+        // very short sequences over symbols that are large multiples of 2^16 (a sort key that packs count and symbol)
+        for freqs in [vec![40u32, 1, 1, 1, 1, 1, 1, 1, 1], vec![9, 2, 2, 1, 1, 1], vec![200, 3, 3, 3, 1, 1, 1, 1, 1, 1, 1, 1]] {
+            for &al in &aliases {
+                for arr in [0u8, 2] {
+                    v.push(SpCase::Tree { alias: al.into(), elem: "u32".into(), gen: Gen::Huff { freqs: freqs.clone(), arr }, vmap: "hscale16".into() });
+                }
+            }
+        }
         // construction histories: the same counts handed to the symbols in another order, built one after
         // the other on the same thread (all ordered pairs of three assignments, incl. the same one twice)
         // (counts large enough for the level data to dominate the additive per-level and table terms of the bound)
@@ -692,7 +700,7 @@ fn enumerate(args: &Args) -> Vec<SpCase> {
             }
         }
         // drifting distributions: a long constant phase followed by a uniform one (and the reverse)
-        for &n in &[3usize * 65536, 3 * 65536 + 3, 200_000, 65536 + 4096, 1 << 16, 40_000] {
+        for &n in &[3usize * 65536, 3 * 65536 + 3, 200_000, 65536 + 4096, 1 << 16, 40_000, (1 << 18) + 1331, (1 << 19) + 77] {
             for sigma in [16u32, 201] {
                 for pat in [Pat::DenseThenSparse, Pat::ConstThenPeriodic, Pat::ConstPeriodicOne] {
                     for &al in &aliases {
